@@ -28,3 +28,4 @@ MUTANTS.append(dict(name="signature-writer-wraps-return-annotation", file="core/
     new='            if return_type:\n                outer, bracket, inner = return_type.partition("[")\n                if bracket and len(return_type) > 90:\n                    self.write_line(f") -> {outer}[")\n                    self.write_line(inner[:-1])\n                    self.write_line("]:")\n                else:\n                    self.write_line(f") -> {return_type}:")\n'))
 MUTANTS.append(dict(name="content-type-param-memo-keyed-by-content-type-only", file="visit/endpoint/generators/overload_generator.py", expect="R13.7",
     old='        Returns:\n            Dictionary with \'name\' and \'type\' keys\n        """\n', new='        Returns:\n            Dictionary with \'name\' and \'type\' keys\n        """\n        if content_type not in self._content_type_params:\n            self._content_type_params[content_type] = self._map_content_type_param(content_type, schema, context)\n        return self._content_type_params[content_type]\n\n    def _map_content_type_param(self, content_type: str, schema: Any, context: RenderContext) -> dict[str, str]:\n', also=('        self.docstring_generator = EndpointDocstringGenerator(self.schemas)\n', '        self.docstring_generator = EndpointDocstringGenerator(self.schemas)\n        self._content_type_params: dict = {}\n')))
+MUTANTS.append(dict(name="handler-sorts-ir-responses-in-place", file='visit/endpoint/generators/response_handler_generator.py', expect="R13.8", old='        other_responses = [r for r in op.responses if not (processed_primary_success and r == primary_success_ir)]\n', new='        declared_responses = op.responses\n        declared_responses.sort(key=lambda r: (not r.status_code.isdigit(), r.status_code))\n        other_responses = [r for r in declared_responses if not (processed_primary_success and r == primary_success_ir)]\n'))
